@@ -10,7 +10,7 @@ from __future__ import annotations
 
 import z3
 
-from .sym import Assumed, EngineLimit, Sym, _lift, _num2, engine, fresh
+from .sym import documented, Assumed, EngineLimit, Sym, _lift, _num2, engine, fresh
 
 _IDX = [z3.Int("idx!%d" % k) for k in range(8)]
 SumF = z3.Function("Sum", z3.IntSort(), z3.ArraySort(z3.IntSort(), z3.RealSort()), z3.RealSort())
@@ -40,6 +40,8 @@ def dim_eq(a, b):
 
 
 def _dterm(d):
+    if isinstance(d, Sym):
+        return d.e
     return z3.IntVal(d) if isinstance(d, int) else d
 
 
@@ -110,8 +112,13 @@ class Tensor:
     __array_priority__ = 2000
 
     def __init__(self, shape, fn):
-        self.shape = tuple(_dim(d) for d in shape)
+        self._shape = tuple(_dim(d) for d in shape)
         self.fn = fn
+
+    @property
+    def shape(self):
+        """dims as python ints or Sym ints (so that real code may test / compare them)"""
+        return tuple(d if isinstance(d, int) else Sym(d) for d in self._shape)
 
     # -- construction ------------------------------------------------------------------------------
     @staticmethod
@@ -151,7 +158,7 @@ class Tensor:
     # -- basics ------------------------------------------------------------------------------------
     @property
     def ndim(self):
-        return len(self.shape)
+        return len(self._shape)
 
     @property
     def dtype(self):
@@ -166,7 +173,7 @@ class Tensor:
 
     def __vt_len__(self):
         if not self.shape:
-            raise TypeError("len() of unsized object")
+            raise documented(TypeError("len() of unsized object"))
         d = self.shape[0]
         return d if isinstance(d, int) else Sym(d)
 
@@ -210,7 +217,7 @@ class Tensor:
             key = key[:pos] + (slice(None),) * (self.ndim - n_explicit) + key[pos + 1 :]
         n_explicit = sum(1 for k in key if k is not None)
         if n_explicit > self.ndim:
-            raise IndexError("too many indices")
+            raise documented(IndexError("too many indices"))
         key = key + (slice(None),) * (self.ndim - n_explicit)
         out_shape = []
         plan = []  # per source axis: ("fix", term) | ("out", out_pos, start, step) | ("gather", tensor, out_positions)
@@ -466,15 +473,15 @@ def matmul(a, b):
         raise EngineLimit("matmul of non-tensors")
     if a.ndim == 2 and b.ndim == 2:
         if not dim_eq(a.shape[1], b.shape[0]):
-            raise TypeError("matmul shape mismatch %s @ %s" % (a.shape, b.shape))
+            raise documented(TypeError("matmul shape mismatch %s @ %s" % (a.shape, b.shape)))
         return Tensor((a.shape[0], b.shape[1]), lambda idx: mk_sum(a.shape[1], lambda k: a.fn((idx[0], k)) * b.fn((k, idx[1]))))
     if a.ndim == 2 and b.ndim == 1:
         if not dim_eq(a.shape[1], b.shape[0]):
-            raise TypeError("matmul shape mismatch %s @ %s" % (a.shape, b.shape))
+            raise documented(TypeError("matmul shape mismatch %s @ %s" % (a.shape, b.shape)))
         return Tensor((a.shape[0],), lambda idx: mk_sum(a.shape[1], lambda k: a.fn((idx[0], k)) * b.fn((k,))))
     if a.ndim == 1 and b.ndim == 2:
         if not dim_eq(a.shape[0], b.shape[0]):
-            raise TypeError("matmul shape mismatch %s @ %s" % (a.shape, b.shape))
+            raise documented(TypeError("matmul shape mismatch %s @ %s" % (a.shape, b.shape)))
         return Tensor((b.shape[1],), lambda idx: mk_sum(a.shape[0], lambda k: a.fn((k,)) * b.fn((k, idx[0]))))
     if a.ndim == 1 and b.ndim == 1:
         return Sym(mk_sum(a.shape[0], lambda k: a.fn((k,)) * b.fn((k,))))
@@ -556,7 +563,7 @@ def lane(x, i, axis=0):
         if axis < 0:
             axis += x.ndim
         if axis >= x.ndim:
-            raise ValueError("vmap in_axes %d out of range for rank %d" % (axis, x.ndim))
+            raise documented(ValueError("vmap in_axes %d out of range for rank %d" % (axis, x.ndim)))
         key = (slice(None),) * axis + (Sym(i) if not isinstance(i, Sym) else i,)
         return x[key]
-    raise ValueError("vmap was requested to map its argument along axis %d, which implies that its rank should be at least %d, but is only 0" % (axis, axis + 1))
+    raise documented(ValueError("vmap was requested to map its argument along axis %d, which implies that its rank should be at least %d, but is only 0" % (axis, axis + 1)))
